@@ -193,7 +193,7 @@ def program(rng, size='small', big_gap=False, aligns=True, data=True, consts=Tru
     return '\n'.join(out) + '\n', meta
 
 
-NSCEN = 20
+NSCEN = 21
 
 
 def scenarios(rng, n):
@@ -202,6 +202,15 @@ def scenarios(rng, n):
     out = []
     def add(src, meta=None):
         out.append((src if src.endswith('\n') else src + '\n', meta or []))
+    # deterministic sweep (always present): a CONSTANT as jump / branch / call target just inside the compressed reach at
+    # decision time, with something in front of the jump that shrinks afterwards
+    for kind, edge in [('j', 2046), ('jal', 2046), ('beqz x8,', 254), ('bnez x9,', 254), ('jal ra,', 2046), ('jal zero,', 2046)]:
+        for pad, fill in ((16, 'addi x8, x8, 1\n'), (64, 'nop\n')):
+            for delta in (0, 2, 4, pad // 2, pad - 2, pad):
+                C = edge + pad + pad // 2 + delta
+                add('C = {}\n'.format(C) + fill * (pad // 4) + 'align {}\n{} C\n'.format(pad, kind))
+        for pre, cval in (('li t0, 1\n', edge + 8), ('li t0, 1\nli t1, 2\n', edge + 12), ('addi a0, a0, 1\nalign 4\n', edge + 6)):
+            add('ENTRY = {}\n{}{} ENTRY\n'.format(cval, pre, kind))
     for k in range(n):
         t = k % NSCEN
         j = k // NSCEN          # deterministic walk through the parameter lists
@@ -359,6 +368,13 @@ def scenarios(rng, n):
                 elif l in ('call L', 'tail L'):
                     meta.append({'line': i, 'kind': l.split()[0], 'label': 'L', 'text': l})
             add(src, meta)
+        elif t == 20:
+            # known finding K1: a transfer whose target lies behind an align that absorbs what compression saves in
+            # front of the transfer (distance grows with -c) -- at the edge of the branch / jump range
+            kind, rng_max, al = [('beq x1, x2, L', 4094, 4096), ('j L', 1048574, 1 << 20), ('bnez x1, L', 4094, 4096)][j % 3]
+            k = rng.choice([2, 3])
+            src = 'add x8, x8, x9\n' * k + kind + '\nalign {}\n'.format(al) + 'dw 0\n' * (1 if k == 2 else 2) + 'L:\n'
+            add(src)
         else:
             src = 'start:\nauipc x5, %hi(%offset(start))\njalr x0, x5, %lo(%offset(start))\nlui x6, %hi(start)\nlw x7, x6, %lo(start)\n'
             add(src)
